@@ -554,6 +554,38 @@ func runProfile(cfg runCfg, prof string) error {
 				}
 			}
 		}
+		if prof == "c03" && i%3 == 1 && opts.perm != nil {
+			// the same request once more under a request limit of 0 lookup rounds: when the execution is abandoned for that,
+			// what the permissions removed is still reported (the limit itself is C13's business)
+			env.gw.es.MaxRequestsPerQuery = 0
+			run3, err3 := env.run(q, vars, hdr)
+			env.gw.es.MaxRequestsPerQuery = 50
+			if err3 == nil && strings.Contains(run3.Resp.Body, "exceeded max requests") {
+				denied := func(rr *e2eRun) string {
+					var d []string
+					for _, e := range rr.Resp.Errors {
+						if strings.HasSuffix(e.Message, "access disallowed") {
+							d = append(d, e.Message)
+						}
+					}
+					sort.Strings(d)
+					return strings.Join(d, " | ")
+				}
+				mainAborted := false // an abandoned main run (ids that cannot be read: KF-key-not-permitted) is not a reference
+				for _, e := range run.Resp.Errors {
+					if strings.Contains(e.Message, "FromMap") || strings.Contains(e.Message, "extractBoundaryIDs") {
+						mainAborted = true
+					}
+				}
+				a, b := denied(run), denied(run3)
+				sum.GoOracle = append(sum.GoOracle, oracleResult{Case: name, Component: "prop.c03.denied_fields_reported_when_the_limit_is_hit", OK: a == b || mainAborted,
+					Detail: fmt.Sprintf("under a request limit of 0 the response reports [%s] (all errors: %v), without the limit [%s]", b, errorSummary(run3.Resp.Errors), a)})
+				sum.Features["limit_hit_with_permissions"]++
+				if a != "" {
+					sum.Features["limit_hit_with_denied_fields"]++
+				}
+			}
+		}
 		onlyDenials := true // the healthy run reported nothing but removed fields (a failed execution is another matter: KF-key-not-permitted)
 		for _, e := range run.Resp.Errors {
 			if !strings.HasSuffix(e.Message, "access disallowed") {
